@@ -56,7 +56,16 @@ PROPS = {
         "assumptions": STD_ASSUME + [
             "hex formatting/parsing sentence (u64_to_hex/hex_to_u64 are thin wrappers over core::fmt and "
             "u64::from_str_radix) is NOT decided by a contract: Verus would assume 100% of it, Kani does not get "
-            "through core::fmt",
+            "through core::fmt / from_str_radix (measured: no result in 15 min); a bounded stand-in (replay ops hex, hex_parse) "
+            "runs on every check and is never counted as proved",
+        ],
+        "bounded_ops": [
+            {"op": "hex", "budget": 3000, "what": "hexadecimal form (NOT under contract): u64_to_hex(x) is 1-16 lower-case digits without "
+             "prefix / leading zeros and hex_to_u64 of it returns x, for boundary, single-bit, valid-cell and random 64-bit values - "
+             "bounded stand-in"},
+            {"op": "hex_parse", "budget": 3000, "what": "hexadecimal form (NOT under contract): hex_to_u64 never panics; Ok(v) only for "
+             "1..16 significant hex digits (optional '+') with v their value; empty, non-hex, non-ASCII and 17+-digit strings give Err - "
+             "bounded stand-in over fixed corner strings and random short strings"},
         ],
         "search_ops": ["roundtrip", "serialize", "deserialize", "get_resolution"],
         "level_text": "Unbounded proof (Verus/Z3) that the real get_resolution/deserialize/serialize, extracted verbatim on "
